@@ -24,7 +24,8 @@ MANIFEST = {
             'verdict on the assembled block at its parent, reward = subsidy + fees to the key handed out, time after '
             'parent; after the found-block handler returns: block in the served state (head if its parent was the served '
             'head), row in the store, exactly one data message per greeted peer, fresh key taken and wallet file saved.'
-            ' Peer blocks also arrive by the bulk-download route (installed unvalidated) and rejected relays make the node fall back to its last validated state while candidates are outstanding.',
+            ' Peer blocks also arrive by the bulk-download route (installed unvalidated) and rejected relays make the node fall back to its last validated state while candidates are outstanding.'
+            ' A quarter of the runs use a short chain on the real genesis block (every sampled ancestor is a different block); a found block may be broadcast while the networking thread is half-way through disconnecting a peer.',
     'note': 'Trusted: reference rules, simulated queues (seams/queues.py) in place of multiprocessing queues, scrypt stand-in, '
             'hollow base. Interleaving granularity: queue operations and handler boundaries (DESIGN 8).',
 }
